@@ -831,15 +831,15 @@ func runJRes(enc string) string {
 	return marshalReal(res)
 }
 
-type recWriter struct{ writes [][]byte }
+type jsonRecWriter struct{ writes [][]byte }
 
-func (w *recWriter) Write(p []byte) (int, error) {
+func (w *jsonRecWriter) Write(p []byte) (int, error) {
 	w.writes = append(w.writes, append([]byte(nil), p...))
 	return len(p), nil
 }
 
 func logReal(uniq bool, rs []scan.Result) string {
-	w := &recWriter{}
+	w := &jsonRecWriter{}
 	l, err := log.NewLogger(w, "json", log.JSON())
 	if err != nil {
 		return "ERR " + err.Error()
